@@ -46,7 +46,10 @@ impl Distribution for DiscreteUniform {
     type Output = f64;
     /// Samples from the given discrete uniform distribution.
     fn sample(&self) -> f64 {
-        alea::i64_in_range(self.lower, self.upper) as f64
+        // `alea::i64_in_range` requires `upper > lower` and panics on the (valid) single-point
+        // distribution `lower == upper`. Drawing the offset from the `upper - lower + 1` points
+        // directly is the same computation without that restriction.
+        (self.lower + alea::i64_less_than(self.upper - self.lower + 1)) as f64
     }
 }
 
